@@ -11,6 +11,24 @@ def find(cx, suffix):
     return [f for f in cx.crate.fns if f.qname.endswith(suffix)]
 
 
+def fn_term(cx, f):
+    """canonical value term of a small function: its tail value with parameters numbered (renaming locals, parameters or pattern
+    variables, or writing `match` for `if let`, leaves it unchanged); None if the function returns early"""
+    from ..terms import subst_term
+    fw = cx.fw(f)
+    if any(ev.kind == 'exit' and ev.how == 'return' for ev in fw.events):
+        return None
+    tm = cx.gm.terms_of(fw)
+    t = tm.block_value_term(f.block, 0)
+    for i_, (n_, _) in enumerate(f.params()):
+        t = subst_term(t, ('param', n_), ('param', i_))
+    return t
+
+
+def P(i):
+    return ('param', i)
+
+
 def check_ident_or_index(cx, rep, rule='IDX-HELPER'):
     """IdentOrIndex: `from_ident_with_index(ident, index)` = the identifier if there is one, else the index; printing prints it."""
     fs = find(cx, 'common::ident_index::IdentOrIndex::from_ident_with_index')
@@ -18,11 +36,15 @@ def check_ident_or_index(cx, rep, rule='IDX-HELPER'):
         rep.broken.append('IdentOrIndex::from_ident_with_index not found')
         return
     f = fs[0]
-    ok = norm(f.block) == '{ifletSome(ident)=ident{Self::from(ident)}else{Self::from(index)}}'
+    t = fn_term(cx, f)
+    FROM = ('Self::from', 'IdentOrIndex::from', 'crate::common::ident_index::IdentOrIndex::from')
+    ok = (isinstance(t, tuple) and t[0] == 'iflet' and t[1] == 'Some(_)' and t[2] == P(0)
+          and isinstance(t[3], tuple) and t[3][0] == 'call' and t[3][1] in FROM and t[3][2:] == (('some_of', P(0)),)
+          and isinstance(t[4], tuple) and t[4][0] == 'call' and t[4][1] in FROM and t[4][2:] == (P(1),))
     (rep.ok(rule, f.qname + '|ident-else-index') if ok else rep.bad(rule, f.qname, 'shape', 'the member of a field is no longer "its identifier, else its declaration index"', f.file, f.line))
     want = {
-        ('Ident', False): '{Self::Ident(value)}', ('Index', False): '{Self::Index(value)}', ('Ident', True): '{Self::Ident(value.clone())}',
-        ('usize', False): '{Self::Index(Index::from(value))}',
+        ('Ident', False): ('call', 'Self::Ident', P(0)), ('Index', False): ('call', 'Self::Index', P(0)), ('Ident', True): ('call', 'Self::Ident', P(0)),
+        ('usize', False): ('call', 'Self::Index', ('call', 'Index::from', P(0))),
     }
     n = 0
     for g in cx.crate.fns:
@@ -31,14 +53,35 @@ def check_ident_or_index(cx, rep, rule='IDX-HELPER'):
             t = ps[0]['ty']
             key = (ty_s(t['elem']) if t['k'] == 'Ref' else ty_s(t), t['k'] == 'Ref')
             n += 1
-            if want.get(key) == norm(g.block):
+            gt = fn_term(cx, g)
+            if isinstance(gt, tuple) and gt[:2] == ('call', 'IdentOrIndex::Ident'):
+                gt = ('call', 'Self::Ident') + gt[2:]
+            if isinstance(gt, tuple) and gt[:2] == ('call', 'IdentOrIndex::Index'):
+                gt = ('call', 'Self::Index') + gt[2:]
+            if isinstance(gt, tuple) and len(gt) == 3 and isinstance(gt[2], tuple) and gt[2][:2] in (('call', 'syn::Index::from'), ('call', 'Index::from')):
+                gt = gt[:2] + (('call', 'Index::from') + gt[2][2:],)
+            if want.get(key) == gt:
                 rep.ok(rule, '%s|From<%s%s>' % (g.qname, '&' if key[1] else '', key[0]))
             else:
                 rep.bad(rule, g.qname, 'From<%s%s>' % ('&' if key[1] else '', key[0]), 'conversion into IdentOrIndex changed: `%s`' % es(g.block)[:80], g.file, g.line)
     if n != 4:
         rep.bad(rule, 'common::ident_index::IdentOrIndex', 'from-impls', 'expected 4 From impls, found %d' % n, 'src/common/ident_index.rs', 1)
     tt = [g for g in cx.crate.fns if g.self_ty == 'IdentOrIndex' and g.name == 'to_tokens']
-    if len(tt) == 1 and norm(tt[0].block) == '{matchself{Self::Ident(ident)=>ToTokens::to_tokens(ident,token_stream),Self::Index(index)=>ToTokens::to_tokens(index,token_stream),}}':
+    ok = False
+    if len(tt) == 1:
+        from ..terms import match_arms
+        t = fn_term(cx, tt[0])
+        ma = match_arms(t)
+        if ma and ma[0] == P(0) and len(ma[1]) == 2:
+            got = {}
+            for ps_, v in ma[1]:
+                for var in ('Ident', 'Index'):
+                    if ps_ in ('Self::%s(_)' % var, 'IdentOrIndex::%s(_)' % var):
+                        pay = ('payload', ps_.split('(')[0], 0, P(0))
+                        got[var] = v in (('call', 'ToTokens::to_tokens', pay, P(1)), ('mcall', pay, 'to_tokens', P(1)),
+                                         ('call', 'quote::ToTokens::to_tokens', pay, P(1)))
+            ok = got == {'Ident': True, 'Index': True}
+    if ok:
         rep.ok(rule, tt[0].qname + '|prints the identifier / index')
     else:
         rep.bad(rule, 'common::ident_index::IdentOrIndex', 'to_tokens', 'IdentOrIndex no longer prints exactly its identifier / index', 'src/common/ident_index.rs', tt[0].line if tt else 1)
@@ -50,17 +93,28 @@ def check_path_to_string(cx, rep, rule='PATH-STRING'):
         rep.broken.append('common::path::path_to_string not found')
         return
     f = fs[0]
-    ok = norm(f.block) == "{path.into_token_stream().to_string().replace('',\"\")}" or norm(f.block) == '{path.into_token_stream().to_string().replace(\' \',"")}'
-    txt = es(f.block)
-    ok = ok or txt.replace(' ', '') == "{path.into_token_stream().to_string().replace('',\"\")}"
-    # robust: token string with all spaces removed
-    ok = 'into_token_stream().to_string().replace(' in txt and txt.count('replace(') == 1 and "' '" in txt and '""' in txt
+    t = fn_term(cx, f)
+    toks = (('mcall', ('mcall', P(0), 'into_token_stream'), 'to_string'), ('mcall', ('mcall', P(0), 'to_token_stream'), 'to_string'))
+    ok = isinstance(t, tuple) and t[0] == 'mcall' and t[2] == 'replace' and t[1] in toks and t[3:] in ((('lit', 'Char', ' '), ('lit', 'Str', '')), (('lit', 'Str', ' '), ('lit', 'Str', '')))
     (rep.ok(rule, f.qname + '|token string without spaces') if ok else rep.bad(rule, f.qname, 'shape', 'a path is no longer printed as its token string with the spaces removed (`Enum::Variant`)', f.file, f.line))
 
 
 def check_hash_type_tokens(cx, rep, rule='SUM-INTO'):
     tt = [g for g in cx.crate.fns if g.self_ty == 'HashType' and g.name == 'to_tokens']
-    ok = len(tt) == 1 and norm(tt[0].block) == '{letty=proc_macro2::TokenStream::from_str(self.0.as_str()).unwrap();token_stream.extend(ty);}'
+    ok = False
+    if len(tt) == 1:
+        g = tt[0]
+        fw = cx.fw(g)
+        tm = cx.gm.terms_of(fw)
+        names = [p_[0] for p_ in g.params()]
+        ext = [ev for ev in fw.events if ev.kind == 'mcall' and ev.method in ('extend', 'append_all') and len(names) == 2
+               and tm.term(ev.recv, ev.scope) == ('param', names[1])]
+        others = [ev for ev in fw.events if ev.kind in ('macro',) and 'tmpl' in ev.mac]
+        if len(ext) == 1 and len(ext[0].args) == 1 and not ext[0].ctx and not others:
+            a = tm.term(ext[0].args[0], ext[0].scope)
+            src = ('field', ('param', names[0]), 0)
+            ok = a in (('unwrap', ('call', 'proc_macro2::TokenStream::from_str', src)), ('unwrap', ('call', 'TokenStream::from_str', src)),
+                       ('unwrap', ('mcall', src, 'parse')))
     if ok:
         rep.ok(rule, tt[0].qname + '|prints the stored type string')
     else:
@@ -70,11 +124,13 @@ def check_hash_type_tokens(cx, rep, rule='SUM-INTO'):
     for g in fr:
         ps = [a for a in g.sig['inputs'] if a['k'] == 'Typed']
         t = ps[0]['ty']
-        b = norm(g.block)
+        gt = fn_term(cx, g)
         if t['k'] == 'Ref':
-            good = b == '{Self(value.into_token_stream().to_string(),value.span())}'
+            good = gt in (('call', 'Self', ('mcall', ('mcall', P(0), 'into_token_stream'), 'to_string'), ('mcall', P(0), 'span')),
+                          ('call', 'Self', ('mcall', ('mcall', P(0), 'to_token_stream'), 'to_string'), ('mcall', P(0), 'span')),
+                          ('call', 'HashType', ('mcall', ('mcall', P(0), 'into_token_stream'), 'to_string'), ('mcall', P(0), 'span')))
         else:
-            good = b == '{Self::from(&value)}'
+            good = gt in (('call', 'Self::from', P(0)), ('call', 'HashType::from', P(0)))
         n += 1
         if good:
             rep.ok(rule, '%s|From<%s>' % (g.qname, ty_s(t)))
